@@ -461,6 +461,418 @@ pub fn child_s(idx: usize) {
     crate::report::emit_child_result(&o.to_json());
 }
 
+
+// ---------------------------------------------------------------------------
+// M: the cache itself used from two threads
+// ---------------------------------------------------------------------------
+
+#[derive(Clone, Debug)]
+pub struct MP {
+    pub cap: usize,
+    pub notify: bool,
+    /// the second thread also reads / updates the owner's key
+    pub touch: bool,
+}
+
+/// Thread A owns key 0: insert pinned, read, update, read, unpin, read.
+/// Thread B inserts 34+ fresh keys (forces maintenance passes and evictions)
+/// and reads key 0 in between. While A reports the key as pinned every read
+/// must find it, with a value A has written and never an older one than the
+/// last completed write; at the end the resident count is within the bound.
+pub fn m_scenario(p: MP) -> Arc<dyn Fn() + Send + Sync> {
+    Arc::new(move || {
+        let p = p.clone();
+        xplore::exploring(false);
+        let cache: Arc<TinyLFU<u16, V, PinListener>> = Arc::new(TinyLFU::new(
+            p.cap,
+            if p.notify { UnpinStrategy::Notify } else { UnpinStrategy::Poll },
+            MaintenanceMode::Piggyback,
+        ));
+        // warm up: the cache is full of unpinned strangers
+        for k in 500..540u16 {
+            cache.entry(k, |e| {
+                if let Entry::Vacant(v) = e {
+                    v.insert(V { val: 0, pinned: Arc::new(AtomicBool::new(false)) });
+                }
+            });
+        }
+        // phase: 0 nothing written, 1 v=1 written (pinned), 2 v=2 written
+        // (pinned), 3 unpinned
+        let phase = Arc::new(AtomicUsize::new(0));
+        let flag = Arc::new(AtomicBool::new(true));
+        xplore::exploring(true);
+        let a = {
+            let (cache, phase, flag) = (cache.clone(), phase.clone(), flag.clone());
+            shuttle::thread::spawn(move || {
+                let read = |what: &str, want: u64| {
+                    match cache.get_map(&0, |v| v.val) {
+                        Some(v) if v == want => {}
+                        other => xplore::report_violation(format!(
+                            "owner: {what}: get(k0) = {other:?}, the entry is pinned and its latest value is {want}"
+                        )),
+                    }
+                };
+                cache.entry(0, |e| match e {
+                    Entry::Vacant(v) => v.insert(V { val: 1, pinned: flag.clone() }),
+                    Entry::Occupied(mut o) => *o.get_mut() = V { val: 1, pinned: flag.clone() },
+                });
+                phase.store(1, Ordering::SeqCst);
+                read("after the insert", 1);
+                cache.entry(0, |e| match e {
+                    Entry::Vacant(v) => {
+                        xplore::report_violation("owner: update found the pinned entry evicted".to_string());
+                        v.insert(V { val: 2, pinned: flag.clone() });
+                    }
+                    Entry::Occupied(mut o) => *o.get_mut() = V { val: 2, pinned: flag.clone() },
+                });
+                phase.store(2, Ordering::SeqCst);
+                read("after the update", 2);
+                phase.store(3, Ordering::SeqCst);
+                flag.store(false, Ordering::SeqCst);
+                if p.notify {
+                    cache.unpin(0);
+                }
+                match cache.get_map(&0, |v| v.val) {
+                    None | Some(2) => {}
+                    other => xplore::report_violation(format!(
+                        "owner: after unpin: get(k0) = {other:?}, latest value is 2"
+                    )),
+                }
+            })
+        };
+        let b = {
+            let (cache, phase) = (cache.clone(), phase.clone());
+            shuttle::thread::spawn(move || {
+                for i in 0..36u16 {
+                    cache.entry(1000 + i, |e| {
+                        if let Entry::Vacant(v) = e {
+                            v.insert(V { val: 0, pinned: Arc::new(AtomicBool::new(false)) });
+                        }
+                    });
+                    if p.touch && i % 12 == 5 {
+                        let before = phase.load(Ordering::SeqCst);
+                        let got = cache.get_map(&0, |v| v.val);
+                        let after = phase.load(Ordering::SeqCst);
+                        let ok = match got {
+                            // absent only before the first write completed or after the unpin began
+                            None => before == 0 || after == 3,
+                            Some(v) => {
+                                let min = match before { 0 | 1 => 1, _ => 2 };
+                                let max = match after { 0 => 1, 1 => 2, _ => 2 };
+                                // a write that is in progress may already be visible
+                                v >= min.min(max) && v <= 2 && !(before >= 2 && v < 2)
+                            }
+                        };
+                        if !ok {
+                            xplore::report_violation(format!(
+                                "reader: get(k0) = {got:?} while the owner was in phase {before}..{after} \
+                                 (1 = value 1 pinned, 2 = value 2 pinned, 3 = unpinned)"
+                            ));
+                        }
+                    }
+                }
+            })
+        };
+        let _ = a.join();
+        let _ = b.join();
+        xplore::exploring(false);
+        // bound on resident entries
+        let resident = (0..1u16)
+            .chain(500..540)
+            .chain(1000..1036)
+            .filter(|k| cache.get_map(k, |_| ()).is_some())
+            .count();
+        let bound = policy_capacity(p.cap) + 33;
+        if resident > bound {
+            xplore::report_violation(format!(
+                "{resident} resident entries > policy capacity + maintenance slack ({bound}) with nothing pinned"
+            ));
+        }
+        xplore::observe(format!("{resident}"));
+    })
+}
+
+pub fn m_params(thorough: bool) -> Vec<(MP, usize)> {
+    let mut v = vec![
+        (MP { cap: 1, notify: true, touch: true }, 2),
+        (MP { cap: 2, notify: false, touch: true }, 2),
+    ];
+    if thorough {
+        v.push((MP { cap: 1, notify: false, touch: true }, 3));
+        v.push((MP { cap: 3, notify: true, touch: true }, 3));
+        v.push((MP { cap: 8, notify: true, touch: false }, 3));
+    }
+    v
+}
+
+pub fn child_m(idx: usize) {
+    let thorough = crate::report::tier() == "thorough";
+    let (p, d) = m_params(thorough)[idx].clone();
+    let mut cfg = xplore::Cfg::new(d);
+    cfg.max_failures = 50;
+    let o = xplore::explore_parallel(&cfg, crate::report::threads(), m_scenario(p));
+    crate::report::emit_child_result(&o.to_json());
+}
+
+
+// ---------------------------------------------------------------------------
+// R: every per-key micro-history, replicated over many keys (leaks add up)
+// ---------------------------------------------------------------------------
+
+#[derive(Clone, Copy, Debug, PartialEq, Eq)]
+pub enum Mop {
+    Put,
+    Get,
+    PinOn,
+    /// owner reports "not pinned" again (+ notification for Notify)
+    PinOff,
+    /// only the notification, whatever the owner reports
+    Notify,
+    Remove,
+    /// 34 fresh unpinned keys
+    Burst,
+}
+
+pub const MOPS: [Mop; 7] = [Mop::Put, Mop::Get, Mop::PinOn, Mop::PinOff, Mop::Notify, Mop::Remove, Mop::Burst];
+
+/// Runs `shape` once per key for `keys` distinct keys (key sets much larger
+/// than the capacity), step by step across all keys ("breadth first": step i
+/// of every key before step i+1 of any), then releases every pin, lets the
+/// cache churn, and checks the bound on resident entries.
+pub fn run_replicated(cap: usize, notify: bool, shape: &[Mop], keys: u16) -> Option<String> {
+    let cache: TinyLFU<u16, V, PinListener> = TinyLFU::new(
+        cap,
+        if notify { UnpinStrategy::Notify } else { UnpinStrategy::Poll },
+        MaintenanceMode::Piggyback,
+    );
+    let mut flags: Vec<Arc<AtomicBool>> = (0..keys).map(|_| Arc::new(AtomicBool::new(false))).collect();
+    let mut vals: Vec<Option<u64>> = vec![None; keys as usize];
+    let mut ctr = 0u64;
+    let mut fresh = 10_000u16;
+    let mut all_keys: Vec<u16> = (0..keys).collect();
+    for op in shape {
+        if *op == Mop::Burst {
+            for _ in 0..34 {
+                cache.entry(fresh, |e| {
+                    if let Entry::Vacant(v) = e {
+                        v.insert(V { val: 0, pinned: Arc::new(AtomicBool::new(false)) });
+                    }
+                });
+                all_keys.push(fresh);
+                fresh += 1;
+            }
+            continue;
+        }
+        for k in 0..keys {
+            let i = k as usize;
+            match op {
+                Mop::Put => {
+                    ctr += 1;
+                    let flag = flags[i].clone();
+                    let val = ctr;
+                    let resident = cache.entry(k, |e| match e {
+                        Entry::Vacant(v) => {
+                            v.insert(V { val, pinned: flag.clone() });
+                            flag.clone()
+                        }
+                        Entry::Occupied(mut o) => {
+                            let p = o.get().pinned.clone();
+                            *o.get_mut() = V { val, pinned: p.clone() };
+                            p
+                        }
+                    });
+                    flags[i] = resident;
+                    vals[i] = Some(ctr);
+                }
+                Mop::Get => {
+                    let got = cache.get_map(&k, |v| v.val);
+                    let pinned = flags[i].load(Ordering::SeqCst);
+                    match (vals[i], got) {
+                        (Some(w), Some(g)) if w != g => {
+                            return Some(format!("get(k{k}) = {g}, latest value is {w}"));
+                        }
+                        (Some(_), None) if pinned => {
+                            return Some(format!("get(k{k}) = None although the entry is pinned"));
+                        }
+                        (Some(_), None) => vals[i] = None,
+                        (None, Some(g)) => {
+                            return Some(format!("get(k{k}) = {g} although the key is not in the cache"));
+                        }
+                        _ => {}
+                    }
+                }
+                Mop::PinOn => {
+                    // only a resident entry can be pinned by its owner
+                    if cache.get_map(&k, |_| ()).is_some() {
+                        flags[i].store(true, Ordering::SeqCst);
+                    } else {
+                        vals[i] = None;
+                    }
+                }
+                Mop::PinOff => {
+                    flags[i].store(false, Ordering::SeqCst);
+                    if notify {
+                        cache.unpin(k);
+                    }
+                }
+                Mop::Notify => {
+                    if notify {
+                        cache.unpin(k);
+                    }
+                }
+                Mop::Remove => {
+                    cache.entry(k, |e| {
+                        if let Entry::Occupied(o) = e {
+                            let _ = o.remove();
+                        }
+                    });
+                    flags[i].store(false, Ordering::SeqCst);
+                    flags[i] = Arc::new(AtomicBool::new(false));
+                    vals[i] = None;
+                }
+                Mop::Burst => unreachable!(),
+            }
+        }
+    }
+    // pinned entries are resident with their latest value
+    for k in 0..keys {
+        let i = k as usize;
+        if flags[i].load(Ordering::SeqCst) {
+            if let Some(w) = vals[i] {
+                match cache.get_map(&k, |v| v.val) {
+                    Some(g) if g == w => {}
+                    other => return Some(format!("pinned k{k} reads {other:?}, latest value is {w}")),
+                }
+            }
+        }
+    }
+    // release every pin, churn, and count what is left
+    for k in 0..keys {
+        flags[k as usize].store(false, Ordering::SeqCst);
+        if notify {
+            cache.unpin(k);
+        }
+    }
+    for _ in 0..3 * 34 {
+        cache.entry(fresh, |e| {
+            if let Entry::Vacant(v) = e {
+                v.insert(V { val: 0, pinned: Arc::new(AtomicBool::new(false)) });
+            }
+        });
+        all_keys.push(fresh);
+        fresh += 1;
+    }
+    for _ in 0..40 {
+        let _ = cache.get_map(&60_000, |_| ());
+    }
+    let resident = all_keys.iter().filter(|k| cache.get_map(k, |_| ()).is_some()).count();
+    let bound = policy_capacity(cap) + 33;
+    if resident > bound {
+        return Some(format!(
+            "{resident} resident entries after every pin was released and 102 fresh keys were inserted; \
+             policy capacity + maintenance slack = {bound}"
+        ));
+    }
+    None
+}
+
+/// all shapes up to `len`
+pub fn shapes(len: usize) -> Vec<Vec<Mop>> {
+    let mut out: Vec<Vec<Mop>> = vec![vec![]];
+    let mut layer: Vec<Vec<Mop>> = vec![vec![]];
+    for _ in 0..len {
+        let mut next = Vec::new();
+        for s in &layer {
+            for m in MOPS {
+                let mut t = s.clone();
+                t.push(m);
+                next.push(t);
+            }
+        }
+        out.extend(next.iter().cloned());
+        layer = next;
+    }
+    out
+}
+
+fn r_part(rep: &mut Report, thorough: bool) {
+    let len = if thorough { 5 } else { 4 };
+    let all = shapes(len);
+    let confs: Vec<(usize, bool)> = if thorough {
+        vec![(1, true), (1, false), (2, true), (8, true), (8, false), (100, true)]
+    } else {
+        vec![(1, true), (2, false), (8, true)]
+    };
+    let keys = 60u16;
+    let jobs: Vec<(usize, bool, Vec<Mop>)> = confs
+        .iter()
+        .flat_map(|(c, n)| all.iter().map(move |s| (*c, *n, s.clone())))
+        .collect();
+    let total = jobs.len();
+    let queue = Arc::new(Mutex::new(jobs));
+    let bad: Arc<Mutex<Vec<(usize, bool, Vec<Mop>, String)>>> = Arc::new(Mutex::new(Vec::new()));
+    // inside shuttle executions (the cache's locks are scheduler primitives
+    // in this build); one execution per worker processes many runs
+    let mut hs = Vec::new();
+    for _ in 0..crate::report::threads() {
+        let (queue, bad) = (queue.clone(), bad.clone());
+        hs.push(std::thread::spawn(move || {
+            loop {
+                let batch: Vec<(usize, bool, Vec<Mop>)> = {
+                    let mut q = queue.lock().unwrap();
+                    let n = q.len().min(64);
+                    let at = q.len() - n;
+                    q.split_off(at)
+                };
+                if batch.is_empty() {
+                    break;
+                }
+                let bad2 = bad.clone();
+                let res = xplore::run_default(move || {
+                    for (c, n, s) in batch {
+                        let r = std::panic::catch_unwind(|| run_replicated(c, n, &s, keys)).unwrap_or_else(|p| {
+                            let msg = p
+                                .downcast_ref::<String>()
+                                .cloned()
+                                .or_else(|| p.downcast_ref::<&str>().map(|s| (*s).to_string()))
+                                .unwrap_or_default();
+                            Some(format!("panicked: {msg}"))
+                        });
+                        if let Some(m) = r {
+                            let mut b = bad2.lock().unwrap();
+                            if b.iter().filter(|x| x.3 == m).count() < 3 {
+                                b.push((c, n, s, m));
+                            }
+                        }
+                    }
+                });
+                if let Err(e) = res {
+                    bad.lock().unwrap().push((0, false, vec![], format!("{:?}: {}", e.kind, e.msg)));
+                }
+            }
+        }));
+    }
+    for h in hs {
+        let _ = h.join();
+    }
+    rep.evaluations += total as u64;
+    rep.distinct_nontrivial += total as u64;
+    rep.extra.insert(
+        "r_part".into(),
+        json!({"shape_length": len, "shapes": all.len(), "keys_per_shape": keys,
+               "configurations": confs.iter().map(|(c, n)| format!("cap {c} notify {n}")).collect::<Vec<_>>(),
+               "runs": total}),
+    );
+    for (c, n, s, m) in bad.lock().unwrap().drain(..) {
+        rep.violation(Violation {
+            what: format!("R cap {c} notify {n} shape {s:?} x {keys} keys: {m}"),
+            tags: vec![],
+            replay: json!({"check": "c16r", "cap": c, "notify": n,
+                "shape": s.iter().map(|m| MOPS.iter().position(|x| x == m).unwrap()).collect::<Vec<_>>()}),
+        });
+    }
+}
+
 pub fn check() -> i32 {
     let mut rep = Report::new("C16", "exploration");
     let thorough = rep.is_thorough();
@@ -584,6 +996,32 @@ pub fn check() -> i32 {
         }
     }
     rep.extra.insert("s_scenarios".into(), json!(sout));
+    let mut mout = Vec::new();
+    for (idx, (p, d)) in m_params(thorough).iter().enumerate() {
+        let Some(o) = crate::report::explore_isolated(&mut rep, "c16m", idx, "two-threads", thorough) else {
+            continue;
+        };
+        rep.evaluations += o.executions;
+        rep.distinct_nontrivial += o.sigs;
+        mout.push(json!({"scenario": format!("{p:?}"), "bound": d, "schedules": o.executions,
+            "max_depth": o.max_depth, "distinct_outcomes": o.outcomes, "failures": o.failures.len()}));
+        if let Some(c) = &o.cap_hit {
+            rep.cap(c.clone());
+        }
+        if let Some(m) = o.machinery_error {
+            rep.machinery_errors.push(m);
+        }
+        for f in &o.failures {
+            rep.violation(Violation {
+                what: format!("M two threads {p:?} {:?}: {}", f.kind, f.msg),
+                tags: vec![format!("{:?}", f.kind)],
+                replay: json!({"check": "c16m", "thorough": thorough,
+                    "scenario_index": idx, "schedule": sched_json(&f.schedule)}),
+            });
+        }
+    }
+    rep.extra.insert("m_scenarios".into(), json!(mout));
+    r_part(&mut rep, thorough);
     rep.finish()
 }
 
@@ -599,6 +1037,37 @@ fn tags_h(msg: &str) -> Vec<String> {
 
 pub fn replay(v: &Value) -> i32 {
     let thorough = v["thorough"].as_bool().unwrap_or(false);
+    if v["check"] == "c16r" {
+        let shape: Vec<Mop> =
+            v["shape"].as_array().unwrap().iter().map(|i| MOPS[i.as_u64().unwrap() as usize]).collect();
+        let (cap, notify) = (v["cap"].as_u64().unwrap() as usize, v["notify"].as_bool().unwrap());
+        let r = match xplore::run_default(move || {
+            std::panic::catch_unwind(|| run_replicated(cap, notify, &shape, 60)).unwrap_or_else(|p| {
+                let msg = p
+                    .downcast_ref::<String>()
+                    .cloned()
+                    .or_else(|| p.downcast_ref::<&str>().map(|s| (*s).to_string()))
+                    .unwrap_or_default();
+                Some(format!("panicked: {msg}"))
+            })
+        }) {
+            Ok(r) => r,
+            Err(e) => Some(format!("{:?}: {}", e.kind, e.msg)),
+        };
+        if let Some(m) = &r {
+            println!("replayed failure: {m}");
+        }
+        return i32::from(r.is_some());
+    }
+    if v["check"] == "c16m" {
+        let (p, _) = m_params(thorough)[v["scenario_index"].as_u64().unwrap() as usize].clone();
+        let s = sched_from_json(&v["schedule"]);
+        let o = xplore::replay(&s, m_scenario(p));
+        for f in &o.failures {
+            println!("replayed failure: {}", f.msg);
+        }
+        return i32::from(!o.failures.is_empty());
+    }
     if v["check"] == "c16s" {
         let (p, _) = s_params(thorough)[v["scenario_index"].as_u64().unwrap() as usize].clone();
         let s = sched_from_json(&v["schedule"]);
